@@ -3,7 +3,30 @@ import TmcgProofs.Group
 import TmcgProofs.SigmaComplete
 import Mathlib.Tactic.NormNum.Prime
 /-
-  C18: oblivious transfer (`Tmcg.Ot`, model of src/NaorPinkasEOTP.cc).
+  C18: oblivious transfer (`Tmcg.Ot`, model of src/NaorPinkasEOTP.cc).  All statements are under
+  `Grp.ValidGroup G`, an instance as the constructor builds it (`InstOk`), coins in `[0, q)`
+  (`InQ`), messages members of the order-`q` subgroup (`Mem`).
+
+  Honest runs are written as the three calls the harness makes: the chooser without a reply (it
+  writes its first move `first` and the stream operator throws), the sender on `first`, the chooser
+  with the same coins on the sender's reply.
+
+  * `ot12_correct`, `ot1N_correct`, `ot1N_opt_correct`
+        the chooser outputs `M_σ`.  The optimised variant: for ALL coins (and every `σ` whose bit
+        length does not exceed that of `q`, e.g. `σ < q`: `bitlen_of_lt_q`).  The other two: for all
+        coins for which the exponents `c_i` (with `c_σ = ab mod q`) are pairwise distinct; on the
+        remaining coins the sender refuses the HONEST chooser's query because two `z_i` coincide
+        (`ot12_collision`, `ot1N_collision`) — a completeness gap of probability `1/q` resp.
+        `≤ N²/2q`, inherent in the protocol.
+  * `sender_aborts_on_bad_query` (`send12_aborts`, `send1N_aborts`, `sendOpt_aborts`)
+        non-member among `x, y, z_i` or coinciding `z_i`: `false`, nothing written, no coin drawn;
+        `send*_missing`: missing / unparsable line: `runtime_error`, nothing written;
+        `send1N_silent`, `sendOpt_silent`: nothing is written unless `true` is returned.
+  * `unchosen_not_decrypted` (`ot12_unchosen`, `ot1N_unchosen`, `otOpt_unchosen`)
+        from ciphertext `i ≠ σ` the chooser's own computation yields `M_i · g^{(c_i - ab)·s_i}`
+        (`c_i - ab = i - σ` in the optimised variant); it equals `M_i` iff
+        `(c_i - ab)·s_i ≡ 0 (mod q)`.
+  * non-vacuity on `p = 23, q = 11, g = 2` at the end of the file.
 -/
 namespace Tmcg.OtProofs
 open Tmcg Tmcg.Powm Tmcg.Vtmf Tmcg.Grp Tmcg.Sigma Tmcg.SigmaComplete Tmcg.Ot
@@ -192,5 +215,928 @@ theorem secondMove_nil (I : Inst) (σ N : Nat) (hN : 0 < N) (b : Int) (first : L
   obtain ⟨n, rfl⟩ := Nat.exists_eq_succ_of_ne_zero (by omega : N ≠ 0)
   simp [secondMove, readPairs]
 
+
+theorem exc_zero (q a s : Int) : ((a % q - a) * s) % q = 0 := by
+  have : (a % q - a) * s = q * (-(a / q) * s) := by rw [Int.emod_def]; ring
+  rw [this]; exact Int.mul_emod_right _ _
+
+/-! ### 1-out-of-2 -/
+
+/-- the chooser's first move: `x = g^a`, `y = g^b`, `z_σ = g^{ab mod q}`, `z_{1-σ} = g^c` -/
+theorem choose12_first (hG : ValidGroup G) {I : Inst} (hI : InstOk G I) {σ : Nat} (hσ : σ < 2)
+    {a b c : Int} (ha : InQ G a) (hb : InQ G b) (hc : InQ G c) :
+    ∃ x y z0 z1, Mem G x ∧ Mem G y ∧ Mem G z0 ∧ Mem G z1 ∧
+      toF G x = toF G G.g ^ a ∧ toF G y = toF G G.g ^ b ∧
+      toF G z0 = toF G G.g ^ (if σ = 0 then a * b % G.q else c) ∧
+      toF G z1 = toF G G.g ^ (if σ = 0 then c else a * b % G.q) ∧
+      ∀ peer, choose12 I σ a b c peer = secondMove I σ 2 b [x, y, z0, z1] 3 peer := by
+  have hab := inQ_emod hG (a * b)
+  have h0 : InQ G (if σ = 0 then a * b % G.q else c) := by split <;> assumption
+  have h1 : InQ G (if σ = 0 then c else a * b % G.q) := by split <;> assumption
+  obtain ⟨x, hx, mx, vx⟩ := gpow_val hG hI a ha
+  obtain ⟨y, hy, my, vy⟩ := gpow_val hG hI b hb
+  obtain ⟨z0, hz0, mz0, vz0⟩ := gpow_val hG hI _ h0
+  obtain ⟨z1, hz1, mz1, vz1⟩ := gpow_val hG hI _ h1
+  refine ⟨x, y, z0, z1, mx, my, mz0, mz1, vx, vy, vz0, vz1, ?_⟩
+  intro peer
+  have hq : G.q ≠ 0 := ne_of_gt hG.q_pos
+  have hg := hI.grp
+  subst hg
+  simp [choose12, step, mpzMod, hq, not_le.mpr hσ, hx, hy, hz0, hz1]
+
+theorem send12_ok (hG : ValidGroup G) {I : Inst} (hI : InstOk G I) {x y z0 z1 : Int}
+    (hx : Mem G x) (hy : Mem G y) (hz0 : Mem G z0) (hz1 : Mem G z1) (hne : z0 ≠ z1)
+    {M0 M1 r0 s0 r1 s1 w0 e0 w1 e1 : Int}
+    (h0 : encOne I x y z0 M0 s0 r0 = .ok (w0, e0)) (h1 : encOne I x y z1 M1 s1 r1 = .ok (w1, e1))
+    (rest : List (Option Int)) :
+    send12 I M0 M1 r0 s0 r1 s1 (some x :: some y :: some z0 :: some z1 :: rest) =
+      ⟨[w0, e0, w1, e1], .done none, 4⟩ := by
+  simp [send12, step, (checkElement_eq hG hI _).mpr hx, (checkElement_eq hG hI _).mpr hy,
+    (checkElement_eq hG hI _).mpr hz0, (checkElement_eq hG hI _).mpr hz1, hne, h0, h1]
+
+/-- A complete honest run of the 1-out-of-2 protocol, for all coins outside the exceptional set
+    `c = ab mod q`: first move, reply, and what BOTH ciphertexts decrypt to under the chooser's
+    secret `b`: `M_i · g^{(c_i - ab)·s_i}` where `c_σ = ab mod q`, `c_{1-σ} = c`. -/
+theorem ot12_run (hG : ValidGroup G) {I : Inst} (hI : InstOk G I) (M0 M1 : Int) {σ : Nat} (hσ : σ < 2)
+    {a b c r0 s0 r1 s1 : Int} (ha : InQ G a) (hb : InQ G b) (hc : InQ G c)
+    (hr0 : InQ G r0) (hr1 : InQ G r1) (hne : c ≠ a * b % G.q) :
+    ∃ first w0 e0 w1 e1 m0 m1,
+      (∀ peer, choose12 I σ a b c peer = secondMove I σ 2 b first 3 peer) ∧
+      send12 I M0 M1 r0 s0 r1 s1 (first.map some) = ⟨[w0, e0, w1, e1], .done none, 4⟩ ∧
+      Mem G w0 ∧ Mem G w1 ∧
+      decrypt I b w0 e0 = .ok (some m0) ∧ decrypt I b w1 e1 = .ok (some m1) ∧
+      (0 ≤ m0 ∧ m0 < G.p) ∧ (0 ≤ m1 ∧ m1 < G.p) ∧
+      toF G m0 = toF G M0 * toF G G.g ^ (((if σ = 0 then a * b % G.q else c) - a * b) * s0) ∧
+      toF G m1 = toF G M1 * toF G G.g ^ (((if σ = 0 then c else a * b % G.q) - a * b) * s1) := by
+  obtain ⟨x, y, z0, z1, mx, my, mz0, mz1, vx, vy, vz0, vz1, hfirst⟩ := choose12_first hG hI hσ ha hb hc
+  have hab := inQ_emod hG (a * b)
+  have hzne : z0 ≠ z1 := by
+    intro h
+    rw [h] at vz0
+    have := gpow_inj hG (by split <;> assumption) (by split <;> assumption) (vz0.symm.trans vz1)
+    by_cases h0 : σ = 0
+    · simp only [h0, if_true] at this; exact hne this.symm
+    · simp only [h0, if_false] at this; exact hne this
+  obtain ⟨w0, e0, m0, henc0, hw0, hdec0, hm0, vm0⟩ :=
+    enc_decrypt hG hI a b _ M0 s0 r0 mx my mz0 hr0 vx vy vz0
+  obtain ⟨w1, e1, m1, henc1, hw1, hdec1, hm1, vm1⟩ :=
+    enc_decrypt hG hI a b _ M1 s1 r1 mx my mz1 hr1 vx vy vz1
+  exact ⟨[x, y, z0, z1], w0, e0, w1, e1, m0, m1, hfirst,
+    send12_ok hG hI mx my mz0 mz1 hzne henc0 henc1 [], hw0, hw1, hdec0, hdec1, hm0, hm1, vm0, vm1⟩
+
+/-- **C18, 1-out-of-2**: the chooser outputs `M_σ` — for all coins except `c = ab mod q`
+    (then `z_0 = z_1` and the sender refuses, see `ot12_collision`). -/
+theorem ot12_correct (hG : ValidGroup G) {I : Inst} (hI : InstOk G I) {M0 M1 : Int}
+    (hM0 : Mem G M0) (hM1 : Mem G M1) {σ : Nat} (hσ : σ < 2)
+    {a b c r0 s0 r1 s1 : Int} (ha : InQ G a) (hb : InQ G b) (hc : InQ G c)
+    (hr0 : InQ G r0) (hs0 : InQ G s0) (hr1 : InQ G r1) (hs1 : InQ G s1) (hne : c ≠ a * b % G.q) :
+    ∃ first reply,
+      choose12 I σ a b c [] = ⟨first, .threw, 3⟩ ∧
+      send12 I M0 M1 r0 s0 r1 s1 (first.map some) = ⟨reply, .done none, 4⟩ ∧
+      choose12 I σ a b c (reply.map some) = ⟨first, .done (some (if σ = 0 then M0 else M1)), 3⟩ := by
+  obtain ⟨first, w0, e0, w1, e1, m0, m1, hfirst, hsend, hw0, hw1, hdec0, hdec1, hm0, hm1, vm0, vm1⟩ :=
+    ot12_run hG hI M0 M1 hσ (s0 := s0) (s1 := s1) ha hb hc hr0 hr1 hne
+  refine ⟨first, [w0, e0, w1, e1], ?_, hsend, ?_⟩
+  · rw [hfirst]; exact secondMove_nil I σ 2 (by norm_num) b first 3
+  · rw [hfirst]
+    have hl : ∀ p ∈ [(w0, e0), (w1, e1)], Mem G p.1 := by
+      intro p hp
+      simp only [List.mem_cons, List.not_mem_nil, or_false] at hp
+      rcases hp with rfl | rfl <;> assumption
+    by_cases h0 : σ = 0
+    · subst h0
+      simp only [if_true] at vm0 ⊢
+      have : m0 = M0 := eq_of_exc hG hM0 hm0 _ vm0 (exc_zero _ _ _)
+      subst this
+      exact secondMove_ok hG hI 0 b first 3 [(w0, e0), (w1, e1)] hl (by rfl) hdec0
+    · have h1 : σ = 1 := by omega
+      subst h1
+      simp only [if_neg h0] at vm1 ⊢
+      have : m1 = M1 := eq_of_exc hG hM1 hm1 _ vm1 (exc_zero _ _ _)
+      subst this
+      exact secondMove_ok hG hI 1 b first 3 [(w0, e0), (w1, e1)] hl (by rfl) hdec1
+
+/-- **C18, 1-out-of-2, the ciphertext not chosen**: with its own secrets the chooser computes
+    `M_i · g^{(c - ab)·s_i}` from ciphertext `i = 1 - σ`; this is `M_i` exactly for the coins
+    with `(c - ab)·s_i ≡ 0 (mod q)`. -/
+theorem ot12_unchosen (hG : ValidGroup G) {I : Inst} (hI : InstOk G I) {M0 M1 : Int}
+    (hM0 : Mem G M0) (hM1 : Mem G M1) {σ : Nat} (hσ : σ < 2)
+    {a b c r0 s0 r1 s1 : Int} (ha : InQ G a) (hb : InQ G b) (hc : InQ G c)
+    (hr0 : InQ G r0) (hs0 : InQ G s0) (hr1 : InQ G r1) (hs1 : InQ G s1) (hne : c ≠ a * b % G.q) :
+    ∃ first w0 e0 w1 e1 m,
+      choose12 I σ a b c [] = ⟨first, .threw, 3⟩ ∧
+      send12 I M0 M1 r0 s0 r1 s1 (first.map some) = ⟨[w0, e0, w1, e1], .done none, 4⟩ ∧
+      decrypt I b (if σ = 0 then w1 else w0) (if σ = 0 then e1 else e0) = .ok (some m) ∧
+      toF G m = toF G (if σ = 0 then M1 else M0) *
+        toF G G.g ^ ((c - a * b) * (if σ = 0 then s1 else s0)) ∧
+      (m = (if σ = 0 then M1 else M0) ↔ ((c - a * b) * (if σ = 0 then s1 else s0)) % G.q = 0) := by
+  obtain ⟨first, w0, e0, w1, e1, m0, m1, hfirst, hsend, hw0, hw1, hdec0, hdec1, hm0, hm1, vm0, vm1⟩ :=
+    ot12_run hG hI M0 M1 hσ (s0 := s0) (s1 := s1) ha hb hc hr0 hr1 hne
+  have hnil : choose12 I σ a b c [] = ⟨first, .threw, 3⟩ := by
+    rw [hfirst]; exact secondMove_nil I σ 2 (by norm_num) b first 3
+  by_cases h0 : σ = 0
+  · simp only [h0, if_true] at vm1 ⊢
+    exact ⟨first, w0, e0, w1, e1, m1, h0 ▸ hnil, hsend, hdec1, vm1, eq_iff_exc hG hM1 hm1 _ vm1⟩
+  · simp only [h0, if_false] at vm0 ⊢
+    exact ⟨first, w0, e0, w1, e1, m0, hnil, hsend, hdec0, vm0, eq_iff_exc hG hM0 hm0 _ vm0⟩
+
+
+/-! ### the sender refuses bad queries before writing anything -/
+
+omit [Fact (Nat.Prime G.p.natAbs)] in
+theorem distinct_iff (l : List Int) : distinct l = true ↔ l.Nodup := by
+  induction l with
+  | nil => simp [distinct]
+  | cons z zs ih => simp [distinct, List.nodup_cons, ih]
+
+/-- **C18, sender, 1-out-of-2**: a non-member among `x, y, z_0, z_1` or `z_0 = z_1` (a query that
+    would open both messages): refused, nothing written, no coin drawn -/
+theorem send12_aborts (hG : ValidGroup G) {I : Inst} (hI : InstOk G I)
+    (M0 M1 r0 s0 r1 s1 x y z0 z1 : Int) (rest : List (Option Int))
+    (h : ¬ Mem G x ∨ ¬ Mem G y ∨ ¬ Mem G z0 ∨ ¬ Mem G z1 ∨ z0 = z1) :
+    send12 I M0 M1 r0 s0 r1 s1 (some x :: some y :: some z0 :: some z1 :: rest) =
+      ⟨[], .refused, 0⟩ := by
+  unfold send12
+  simp only
+  split_ifs with h1 h2 h3
+  · rfl
+  · rfl
+  · rfl
+  · exfalso
+    simp only [Bool.not_eq_true', Bool.and_eq_false_imp, Bool.not_eq_false, not_forall,
+      exists_prop] at h1 h2
+    have hx := (checkElement_eq hG hI x).mp h1.1
+    have hy := (checkElement_eq hG hI y).mp (by simpa using h1.2)
+    have hz0 := (checkElement_eq hG hI z0).mp h2.1
+    have hz1 := (checkElement_eq hG hI z1).mp (by simpa using h2.2)
+    tauto
+
+omit [Fact (Nat.Prime G.p.natAbs)] in
+/-- fewer than four parsable lines: the stream operator throws, nothing written -/
+theorem send12_missing (I : Inst) (M0 M1 r0 s0 r1 s1 : Int) (peer : List (Option Int))
+    (h : readN 4 peer = none) : send12 I M0 M1 r0 s0 r1 s1 peer = ⟨[], .threw, 0⟩ := by
+  unfold send12
+  split
+  · simp [readN] at h
+  · rfl
+
+/-- **C18, sender, 1-out-of-N**: a non-member among `x, y, z_i` or two coinciding `z_i`:
+    refused, nothing written, no coin drawn -/
+theorem send1N_aborts (hG : ValidGroup G) {I : Inst} (hI : InstOk G I) (M : List Int)
+    (sr : List (Int × Int)) (peer : List (Option Int)) (x y : Int) (zs : List Int)
+    (hread : readN (2 + M.length) peer = some (x :: y :: zs))
+    (h : ¬ Mem G x ∨ ¬ Mem G y ∨ (∃ z ∈ zs, ¬ Mem G z) ∨ ¬ zs.Nodup) :
+    (send1N I M sr peer).result ≠ .done none ∧ (send1N I M sr peer).written = [] ∧
+      (2 ≤ M.length → send1N I M sr peer = ⟨[], .refused, 0⟩) := by
+  unfold send1N
+  by_cases hlen : M.length < 2
+  · simp [hlen]
+  · rw [if_neg hlen, hread]
+    simp only
+    split_ifs with h1 h2 h3
+    · simp
+    · simp
+    · simp
+    · exfalso
+      simp only [Bool.not_eq_true', Bool.and_eq_false_imp, Bool.not_eq_false, not_forall,
+        exists_prop] at h1 h2 h3
+      have hx := (checkElement_eq hG hI x).mp h1.1
+      have hy := (checkElement_eq hG hI y).mp (by simpa using h1.2)
+      have hz : ∀ z ∈ zs, Mem G z := fun z hz =>
+        (checkElement_eq hG hI z).mp (List.all_eq_true.mp h2 z hz)
+      have hd := (distinct_iff zs).mp h3
+      rcases h with h | h | ⟨z, hz1, hz2⟩ | h
+      · exact h hx
+      · exact h hy
+      · exact hz2 (hz z hz1)
+      · exact h hd
+
+omit [Fact (Nat.Prime G.p.natAbs)] in
+theorem send1N_missing (I : Inst) (M : List Int) (sr : List (Int × Int)) (peer : List (Option Int))
+    (hlen : 2 ≤ M.length) (h : readN (2 + M.length) peer = none) :
+    send1N I M sr peer = ⟨[], .threw, 0⟩ := by
+  unfold send1N
+  rw [if_neg (by omega), h]
+
+/-- **C18, sender, optimised 1-out-of-N**: a non-member among `x, y, z_0`: refused, nothing
+    written, no coin drawn -/
+theorem sendOpt_aborts (hG : ValidGroup G) {I : Inst} (hI : InstOk G I) (M : List Int)
+    (sr : List (Int × Int)) (x y z0 : Int) (rest : List (Option Int)) (hlen : 2 ≤ M.length)
+    (h : ¬ Mem G x ∨ ¬ Mem G y ∨ ¬ Mem G z0) :
+    sendOpt I M sr (some x :: some y :: some z0 :: rest) = ⟨[], .refused, 0⟩ := by
+  unfold sendOpt
+  rw [if_neg (by omega)]
+  simp only
+  split_ifs with h1
+  · rfl
+  · exfalso
+    simp only [Bool.not_eq_true', Bool.and_eq_false_imp, Bool.not_eq_false, not_forall,
+      exists_prop, Bool.and_eq_true] at h1
+    have hx := (checkElement_eq hG hI x).mp (by tauto)
+    have hy := (checkElement_eq hG hI y).mp (by tauto)
+    have hz := (checkElement_eq hG hI z0).mp (by tauto)
+    tauto
+
+omit [Fact (Nat.Prime G.p.natAbs)] in
+theorem sendOpt_missing (I : Inst) (M : List Int) (sr : List (Int × Int)) (peer : List (Option Int))
+    (hlen : 2 ≤ M.length) (h : readN 3 peer = none) : sendOpt I M sr peer = ⟨[], .threw, 0⟩ := by
+  unfold sendOpt
+  rw [if_neg (by omega)]
+  split
+  · simp [readN] at h
+  · rfl
+
+omit [Fact (Nat.Prime G.p.natAbs)] in
+/-- both 1-out-of-N senders write only when they return `true` -/
+theorem sendTail_written (I : Inst) (x y : Int) (zs M : List Int) (sr : List (Int × Int))
+    (h : (sendTail I x y zs M sr).result ≠ .done none) : (sendTail I x y zs M sr).written = [] := by
+  unfold sendTail at h ⊢
+  split
+  · rfl
+  · rename_i heq
+    rw [heq] at h
+    simp at h
+
+
+/-! ### 1-out-of-N -/
+
+/-- the exponents the chooser fixes: the drawn `c_i`, with `c_σ` replaced by `ab mod q`
+    (`i` is the index of the head of the list) -/
+def expo (σ : Nat) (ab : Int) : Nat → List Int → List Int
+  | _, [] => []
+  | i, c :: cs => (if i = σ then ab else c) :: expo σ ab (i + 1) cs
+
+omit [Fact (Nat.Prime G.p.natAbs)] in
+theorem expo_length (σ : Nat) (ab : Int) : ∀ (cs : List Int) (i : Nat), (expo σ ab i cs).length = cs.length
+  | [], _ => rfl
+  | _ :: cs, i => by simp [expo, expo_length σ ab cs (i + 1)]
+
+omit [Fact (Nat.Prime G.p.natAbs)] in
+theorem expo_getElem? (σ : Nat) (ab : Int) : ∀ (cs : List Int) (i j : Nat),
+    (expo σ ab i cs)[j]? = (cs[j]?).map fun c => if i + j = σ then ab else c
+  | [], _, _ => by simp [expo]
+  | c :: cs, i, 0 => by simp [expo]
+  | c :: cs, i, j + 1 => by
+    simp only [expo, List.getElem?_cons_succ]
+    rw [expo_getElem? σ ab cs (i + 1) j]
+    have : i + 1 + j = i + (j + 1) := by omega
+    rw [this]
+
+omit [Fact (Nat.Prime G.p.natAbs)] in
+theorem expo_mem (σ : Nat) (ab : Int) : ∀ (cs : List Int) (i : Nat) (e : Int),
+    e ∈ expo σ ab i cs → e = ab ∨ e ∈ cs
+  | [], _, _, h => by simp [expo] at h
+  | c :: cs, i, e, h => by
+    simp only [expo, List.mem_cons] at h
+    rcases h with h | h
+    · by_cases hi : i = σ
+      · left; simpa [hi] using h
+      · right; simp [hi] at h; simp [h]
+    · rcases expo_mem σ ab cs (i + 1) e h with h | h
+      · exact Or.inl h
+      · exact Or.inr (List.mem_cons_of_mem _ h)
+
+/-- `z` is the reduced representative of `g^e` -/
+def IsPow (G : Group) [Fact (Nat.Prime G.p.natAbs)] (z e : Int) : Prop :=
+  (0 ≤ z ∧ z < G.p) ∧ toF G z = toF G G.g ^ e
+
+theorem IsPow.mem (hG : ValidGroup G) {z e : Int} (h : IsPow G z e) : Mem G z :=
+  mem_of_gpow hG h.1.1 h.1.2 h.2
+
+omit [Fact (Nat.Prime G.p.natAbs)] in
+theorem forall₂_mem_left {α β} {R : α → β → Prop} {l₁ : List α} {l₂ : List β}
+    (h : List.Forall₂ R l₁ l₂) {a : α} (ha : a ∈ l₁) : ∃ b ∈ l₂, R a b := by
+  induction h with
+  | nil => simp at ha
+  | cons hr _ ih =>
+    rcases List.mem_cons.mp ha with rfl | ha
+    · exact ⟨_, List.mem_cons_self, hr⟩
+    · obtain ⟨b, hb, hab⟩ := ih ha
+      exact ⟨b, List.mem_cons_of_mem _ hb, hab⟩
+
+omit [Fact (Nat.Prime G.p.natAbs)] in
+theorem forall₂_mem_right {α β} {R : α → β → Prop} {l₁ : List α} {l₂ : List β}
+    (h : List.Forall₂ R l₁ l₂) {b : β} (hb : b ∈ l₂) : ∃ a ∈ l₁, R a b := by
+  induction h with
+  | nil => simp at hb
+  | cons hr _ ih =>
+    rcases List.mem_cons.mp hb with rfl | hb
+    · exact ⟨_, List.mem_cons_self, hr⟩
+    · obtain ⟨a, ha, hab⟩ := ih hb
+      exact ⟨a, List.mem_cons_of_mem _ ha, hab⟩
+
+/-- distinct exponents in `[0, q)` give distinct group elements … -/
+theorem nodup_of_expo (hG : ValidGroup G) {zs es : List Int} (h : List.Forall₂ (IsPow G) zs es)
+    (hq : ∀ e ∈ es, InQ G e) (hnd : es.Nodup) : zs.Nodup := by
+  induction h with
+  | nil => exact List.nodup_nil
+  | @cons z e zs' es' hr hrest ih =>
+    rw [List.nodup_cons] at hnd ⊢
+    refine ⟨?_, ih (fun e he => hq e (List.mem_cons_of_mem _ he)) hnd.2⟩
+    intro hz
+    obtain ⟨e', he', hr'⟩ := forall₂_mem_left hrest hz
+    have : e = e' := gpow_inj hG (hq e List.mem_cons_self) (hq e' (List.mem_cons_of_mem _ he'))
+      (hr.2.symm.trans hr'.2)
+    exact hnd.1 (this ▸ he')
+
+/-- … and coinciding exponents give coinciding elements -/
+theorem nodup_expo_of (hG : ValidGroup G) {zs es : List Int} (h : List.Forall₂ (IsPow G) zs es)
+    (hnd : zs.Nodup) : es.Nodup := by
+  induction h with
+  | nil => exact List.nodup_nil
+  | @cons z e zs' es' hr hrest ih =>
+    rw [List.nodup_cons] at hnd ⊢
+    refine ⟨?_, ih hnd.2⟩
+    intro he
+    obtain ⟨z', hz', hr'⟩ := forall₂_mem_right hrest he
+    have : z = z' := eq_of_toF_eq hG hr.1 hr'.1 (hr.2.trans hr'.2.symm)
+    exact hnd.1 (this ▸ hz')
+
+/-- the chooser's loop over the `c_i` -/
+theorem zLoop_val (hG : ValidGroup G) {I : Inst} (hI : InstOk G I) (σ : Nat) (a b : Int) :
+    ∀ (cs : List Int) (i : Nat), (∀ c ∈ cs, InQ G c) →
+      ∃ zs, zLoop I σ a b i cs = (zs, none) ∧
+        List.Forall₂ (IsPow G) zs (expo σ (a * b % G.q) i cs) := by
+  intro cs
+  induction cs with
+  | nil => intro i _; exact ⟨[], rfl, List.Forall₂.nil⟩
+  | cons c cs ih =>
+    intro i hcs
+    obtain ⟨zs, hzs, hrel⟩ := ih (i + 1) (fun c hc => hcs c (List.mem_cons_of_mem _ hc))
+    have he : InQ G (if i = σ then a * b % G.q else c) := by
+      split
+      · exact inQ_emod hG _
+      · exact hcs c List.mem_cons_self
+    obtain ⟨z, hz, mz, vz⟩ := gpow_val hG hI _ he
+    refine ⟨z :: zs, ?_, List.Forall₂.cons ⟨⟨mz.1.le, mz.2.1⟩, vz⟩ hrel⟩
+    have hq : G.q ≠ 0 := ne_of_gt hG.q_pos
+    have hg := hI.grp
+    subst hg
+    by_cases hi : i = σ
+    · simp only [hi, if_true] at hz
+      simp [zLoop, hi, mpzMod, hq, bind, Except.bind, hz, hi ▸ hzs]
+    · simp only [hi, if_false] at hz
+      simp [zLoop, hi, bind, Except.bind, pure, Except.pure, hz, hzs]
+
+
+/-- what the chooser obtains from ciphertext `(w, e)` with its secret `b`, when the ciphertext
+    encrypts `Mi` under `z = g^c` with the sender's coin `s`: `Mi · g^{(c - ab)·s}` -/
+def Opens (G : Group) [Fact (Nat.Prime G.p.natAbs)] (I : Inst) (a b : Int) (we : Int × Int)
+    (c Mi s : Int) : Prop :=
+  ∃ m, decrypt I b we.1 we.2 = .ok (some m) ∧ (0 ≤ m ∧ m < G.p) ∧
+    toF G m = toF G Mi * toF G G.g ^ ((c - a * b) * s)
+
+/-- the sender's encryption loop: every ciphertext is computed, every `w_i` is a group element,
+    and ciphertext `i` opens (for the chooser's `b`) to `M_i · g^{(c_i - ab)·s_i}` -/
+theorem encAll_val (hG : ValidGroup G) {I : Inst} (hI : InstOk G I) {x y : Int} (a b : Int)
+    (hx : Mem G x) (hy : Mem G y) (vx : toF G x = toF G G.g ^ a) (vy : toF G y = toF G G.g ^ b)
+    {zs es : List Int} (h : List.Forall₂ (IsPow G) zs es) :
+    ∀ (M : List Int) (sr : List (Int × Int)), M.length = zs.length → sr.length = zs.length →
+      (∀ p ∈ sr, InQ G p.2) →
+      ∃ l, encAll I x y zs M sr = (l, none) ∧ l.length = zs.length ∧ (∀ p ∈ l, Mem G p.1) ∧
+        ∀ (i : Nat) (we : Int × Int), l[i]? = some we → ∃ c Mi s r, es[i]? = some c ∧ M[i]? = some Mi ∧
+          sr[i]? = some (s, r) ∧ Opens G I a b we c Mi s := by
+  induction h with
+  | nil =>
+    intro M sr hM hsr _
+    refine ⟨[], ?_, rfl, by simp, by simp⟩
+    cases M <;> cases sr <;> simp [encAll] at hM hsr ⊢
+  | @cons z c zs' es' hr hrest ih =>
+    intro M sr hM hsr hq
+    rcases M with _ | ⟨Mi, Ms⟩
+    · simp at hM
+    rcases sr with _ | ⟨⟨s, r⟩, srs⟩
+    · simp at hsr
+    simp only [List.length_cons, Nat.add_right_cancel_iff] at hM hsr
+    obtain ⟨l, hl, hlen, hmem, hopen⟩ := ih Ms srs hM hsr (fun p hp => hq p (List.mem_cons_of_mem _ hp))
+    obtain ⟨w, e, m, henc, hw, hdec, hm, vm⟩ :=
+      enc_decrypt hG hI a b c Mi s r hx hy (hr.mem hG) (hq (s, r) List.mem_cons_self) vx vy hr.2
+    refine ⟨(w, e) :: l, ?_, by simp [hlen], ?_, ?_⟩
+    · simp [encAll, henc, hl]
+    · intro p hp
+      rcases List.mem_cons.mp hp with rfl | hp
+      · exact hw
+      · exact hmem p hp
+    · intro i we hi
+      rcases i with _ | i
+      · simp only [List.getElem?_cons_zero, Option.some.injEq] at hi
+        subst hi
+        exact ⟨c, Mi, s, r, by simp, by simp, by simp, m, hdec, hm, vm⟩
+      · simp only [List.getElem?_cons_succ] at hi ⊢
+        exact hopen i we hi
+
+/-- the sender serves a well-formed first move -/
+theorem send1N_ok (hG : ValidGroup G) {I : Inst} (hI : InstOk G I) {x y : Int} {zs : List Int}
+    (hx : Mem G x) (hy : Mem G y) (hz : ∀ z ∈ zs, Mem G z) (hnd : zs.Nodup)
+    (M : List Int) (sr : List (Int × Int)) (hN : 2 ≤ M.length) (hlen : M.length = zs.length)
+    {l : List (Int × Int)} (hl : encAll I x y zs M sr = (l, none)) :
+    send1N I M sr ((x :: y :: zs).map some) = ⟨flat l, .done none, 2 * l.length⟩ := by
+  have hread : readN (2 + M.length) ((x :: y :: zs).map some) = some (x :: y :: zs) := by
+    have := readN_map (x :: y :: zs)
+    simp only [List.length_cons] at this
+    rw [hlen, show 2 + zs.length = zs.length + 1 + 1 by omega]
+    exact this
+  have hall : zs.all (Ot.checkElement I) = true :=
+    List.all_eq_true.mpr fun z hz' => (checkElement_eq hG hI z).mpr (hz z hz')
+  unfold send1N
+  rw [if_neg (by omega), hread]
+  simp [(checkElement_eq hG hI x).mpr hx, (checkElement_eq hG hI y).mpr hy, hall,
+    (distinct_iff zs).mpr hnd, sendTail, hl]
+
+/-- the chooser's first move: `x = g^a`, `y = g^b`, `z_i = g^{c_i}` with `c_σ = ab mod q` -/
+theorem choose1N_first (hG : ValidGroup G) {I : Inst} (hI : InstOk G I) {σ : Nat} {a b : Int}
+    {cs : List Int} (hN : 2 ≤ cs.length) (hσ : σ < cs.length) (ha : InQ G a) (hb : InQ G b)
+    (hcs : ∀ c ∈ cs, InQ G c) :
+    ∃ x y zs, Mem G x ∧ Mem G y ∧ toF G x = toF G G.g ^ a ∧ toF G y = toF G G.g ^ b ∧
+      List.Forall₂ (IsPow G) zs (expo σ (a * b % G.q) 0 cs) ∧
+      ∀ peer, choose1N I σ a b cs peer =
+        secondMove I σ cs.length b (x :: y :: zs) (2 + cs.length) peer := by
+  obtain ⟨x, hx, mx, vx⟩ := gpow_val hG hI a ha
+  obtain ⟨y, hy, my, vy⟩ := gpow_val hG hI b hb
+  obtain ⟨zs, hzs, hrel⟩ := zLoop_val hG hI σ a b cs 0 hcs
+  refine ⟨x, y, zs, mx, my, vx, vy, hrel, ?_⟩
+  intro peer
+  have h1 : ¬ (cs.length < 2 ∨ cs.length ≤ σ) := by omega
+  simp [choose1N, step, hx, hy, hzs]
+  intro h; exfalso; omega
+
+/-- A complete honest run of the 1-out-of-N protocol, for all coins for which the exponents
+    `c_i` (with `c_σ = ab mod q`) are pairwise distinct: the first move, the reply `flat l`, and
+    what EVERY ciphertext opens to under the chooser's secret `b`. -/
+theorem ot1N_run (hG : ValidGroup G) {I : Inst} (hI : InstOk G I) (M : List Int) (hN : 2 ≤ M.length)
+    {σ : Nat} (hσ : σ < M.length) {a b : Int} (ha : InQ G a) (hb : InQ G b)
+    {cs : List Int} (hcl : cs.length = M.length) (hcs : ∀ c ∈ cs, InQ G c)
+    {sr : List (Int × Int)} (hsl : sr.length = M.length) (hsr : ∀ p ∈ sr, InQ G p.2)
+    (hnd : (expo σ (a * b % G.q) 0 cs).Nodup) :
+    ∃ first l,
+      (∀ peer, choose1N I σ a b cs peer = secondMove I σ M.length b first (2 + M.length) peer) ∧
+      send1N I M sr (first.map some) = ⟨flat l, .done none, 2 * M.length⟩ ∧
+      l.length = M.length ∧ (∀ p ∈ l, Mem G p.1) ∧
+      ∀ (i : Nat) (we : Int × Int), l[i]? = some we → ∃ c Mi s r, (expo σ (a * b % G.q) 0 cs)[i]? = some c ∧
+        M[i]? = some Mi ∧ sr[i]? = some (s, r) ∧ Opens G I a b we c Mi s := by
+  obtain ⟨x, y, zs, mx, my, vx, vy, hrel, hfirst⟩ :=
+    choose1N_first hG hI (by rw [hcl]; exact hN) (by rw [hcl]; exact hσ) ha hb hcs
+  have hzl : zs.length = M.length := by rw [hrel.length_eq, expo_length, hcl]
+  have hq : ∀ e ∈ expo σ (a * b % G.q) 0 cs, InQ G e := by
+    intro e he
+    rcases expo_mem _ _ _ _ _ he with rfl | h
+    · exact inQ_emod hG _
+    · exact hcs e h
+  have hznd := nodup_of_expo hG hrel hq hnd
+  have hzmem : ∀ z ∈ zs, Mem G z := by
+    intro z hz
+    obtain ⟨e, -, hr⟩ := forall₂_mem_left hrel hz
+    exact hr.mem hG
+  obtain ⟨l, hl, hlen, hmem, hopen⟩ :=
+    encAll_val hG hI a b mx my vx vy hrel M sr hzl.symm (hsl.trans hzl.symm) hsr
+  refine ⟨x :: y :: zs, l, ?_, ?_, hlen.trans hzl, hmem, hopen⟩
+  · intro peer; rw [hfirst, hcl]
+  · rw [send1N_ok hG hI mx my hzmem hznd M sr hN hzl.symm hl, hlen, hzl]
+
+/-- **C18, 1-out-of-N**: the chooser outputs `M_σ` — for all coins for which the `c_i`
+    (with `c_σ = ab mod q`) are pairwise distinct; otherwise two `z_i` coincide and the sender
+    refuses (`ot1N_collision`). -/
+theorem ot1N_correct (hG : ValidGroup G) {I : Inst} (hI : InstOk G I) (M : List Int)
+    (hM : ∀ m ∈ M, Mem G m) (hN : 2 ≤ M.length)
+    {σ : Nat} (hσ : σ < M.length) {a b : Int} (ha : InQ G a) (hb : InQ G b)
+    {cs : List Int} (hcl : cs.length = M.length) (hcs : ∀ c ∈ cs, InQ G c)
+    {sr : List (Int × Int)} (hsl : sr.length = M.length) (hsr : ∀ p ∈ sr, InQ G p.1 ∧ InQ G p.2)
+    (hnd : (expo σ (a * b % G.q) 0 cs).Nodup) :
+    ∃ first reply,
+      choose1N I σ a b cs [] = ⟨first, .threw, 2 + M.length⟩ ∧
+      send1N I M sr (first.map some) = ⟨reply, .done none, 2 * M.length⟩ ∧
+      choose1N I σ a b cs (reply.map some) = ⟨first, .done M[σ]?, 2 + M.length⟩ := by
+  obtain ⟨first, l, hfirst, hsend, hlen, hmem, hopen⟩ :=
+    ot1N_run hG hI M hN hσ ha hb hcl hcs hsl (fun p hp => (hsr p hp).2) hnd
+  refine ⟨first, flat l, ?_, hsend, ?_⟩
+  · rw [hfirst]; exact secondMove_nil I σ _ (by omega) b first _
+  · obtain ⟨we, hwe⟩ : ∃ we, l[σ]? = some we := ⟨l[σ]'(by omega), List.getElem?_eq_getElem _⟩
+    obtain ⟨c, Mi, s, r, hc, hMi, -, m, hdec, hm, vm⟩ := hopen σ we hwe
+    rw [expo_getElem?, List.getElem?_eq_getElem (by omega)] at hc
+    simp only [Option.map_some, zero_add, if_true, Option.some.injEq] at hc
+    subst hc
+    have hMem : Mem G Mi := hM Mi (List.mem_of_getElem? hMi)
+    have : m = Mi := eq_of_exc hG hMem hm _ vm (exc_zero _ _ _)
+    subst this
+    rw [hfirst, hMi, ← hlen]
+    exact secondMove_ok hG hI σ b first _ l hmem (w := we.1) (e := we.2) hwe hdec
+
+/-- **C18, 1-out-of-N, the ciphertexts not chosen**: from ciphertext `i ≠ σ` the chooser computes,
+    with its own secrets, `M_i · g^{(c_i - ab)·s_i}`; this is `M_i` exactly for the coins with
+    `(c_i - ab)·s_i ≡ 0 (mod q)`. -/
+theorem ot1N_unchosen (hG : ValidGroup G) {I : Inst} (hI : InstOk G I) (M : List Int)
+    (hM : ∀ m ∈ M, Mem G m) (hN : 2 ≤ M.length)
+    {σ : Nat} (hσ : σ < M.length) {a b : Int} (ha : InQ G a) (hb : InQ G b)
+    {cs : List Int} (hcl : cs.length = M.length) (hcs : ∀ c ∈ cs, InQ G c)
+    {sr : List (Int × Int)} (hsl : sr.length = M.length) (hsr : ∀ p ∈ sr, InQ G p.1 ∧ InQ G p.2)
+    (hnd : (expo σ (a * b % G.q) 0 cs).Nodup) :
+    ∃ first l,
+      choose1N I σ a b cs [] = ⟨first, .threw, 2 + M.length⟩ ∧
+      send1N I M sr (first.map some) = ⟨flat l, .done none, 2 * M.length⟩ ∧ l.length = M.length ∧
+      ∀ i w e ci Mi s r, i ≠ σ → l[i]? = some (w, e) → cs[i]? = some ci → M[i]? = some Mi →
+        sr[i]? = some (s, r) →
+        ∃ m, decrypt I b w e = .ok (some m) ∧
+          toF G m = toF G Mi * toF G G.g ^ ((ci - a * b) * s) ∧
+          (m = Mi ↔ ((ci - a * b) * s) % G.q = 0) := by
+  obtain ⟨first, l, hfirst, hsend, hlen, hmem, hopen⟩ :=
+    ot1N_run hG hI M hN hσ ha hb hcl hcs hsl (fun p hp => (hsr p hp).2) hnd
+  refine ⟨first, l, ?_, hsend, hlen, ?_⟩
+  · rw [hfirst]; exact secondMove_nil I σ _ (by omega) b first _
+  · intro i w e ci Mi s r hi hl hci hMi hs
+    obtain ⟨c, Mi', s', r', hc, hMi', hs', m, hdec, hm, vm⟩ := hopen i (w, e) hl
+    rw [expo_getElem?, hci] at hc
+    simp only [Option.map_some, zero_add, if_neg hi, Option.some.injEq] at hc
+    rw [hMi] at hMi'; rw [hs] at hs'
+    simp only [Option.some.injEq, Prod.mk.injEq] at hMi' hs'
+    obtain ⟨rfl, rfl⟩ := hs'
+    subst hc hMi'
+    exact ⟨m, hdec, vm, eq_iff_exc hG (hM Mi (List.mem_of_getElem? hMi)) hm _ vm⟩
+
+/-- the exceptional coins of the 1-out-of-N protocol: when two of the exponents `c_i` (with
+    `c_σ = ab mod q`) coincide, the honest chooser's own first move is refused by the sender —
+    nothing is written, and the chooser then finds no reply -/
+theorem ot1N_collision (hG : ValidGroup G) {I : Inst} (hI : InstOk G I) (M : List Int)
+    (hN : 2 ≤ M.length) {σ : Nat} (hσ : σ < M.length) {a b : Int} (ha : InQ G a) (hb : InQ G b)
+    {cs : List Int} (hcl : cs.length = M.length) (hcs : ∀ c ∈ cs, InQ G c)
+    (sr : List (Int × Int)) (hnd : ¬ (expo σ (a * b % G.q) 0 cs).Nodup) :
+    ∃ first,
+      choose1N I σ a b cs [] = ⟨first, .threw, 2 + M.length⟩ ∧
+      send1N I M sr (first.map some) = ⟨[], .refused, 0⟩ := by
+  obtain ⟨x, y, zs, mx, my, vx, vy, hrel, hfirst⟩ :=
+    choose1N_first hG hI (by rw [hcl]; exact hN) (by rw [hcl]; exact hσ) ha hb hcs
+  have hzl : zs.length = M.length := by rw [hrel.length_eq, expo_length, hcl]
+  refine ⟨x :: y :: zs, ?_, ?_⟩
+  · rw [hfirst, hcl]; exact secondMove_nil I σ _ (by omega) b _ _
+  · have hread : readN (2 + M.length) ((x :: y :: zs).map some) = some (x :: y :: zs) := by
+      have := readN_map (x :: y :: zs)
+      simp only [List.length_cons] at this
+      rw [← hzl, show 2 + zs.length = zs.length + 1 + 1 by omega]
+      exact this
+    exact (send1N_aborts hG hI M sr _ x y zs hread
+      (Or.inr (Or.inr (Or.inr fun h => hnd (nodup_expo_of hG hrel h))))).2.2 hN
+
+
+/-! ### optimised 1-out-of-N -/
+
+/-- the fixed-base routine on a non-negative exponent that fits the table (`|e| ≤ |q|` bits) -/
+theorem gpow_val_small (hG : ValidGroup G) {I : Inst} (hI : InstOk G I) (e : Int) (he0 : 0 ≤ e)
+    (hlen : bitlen e ≤ bitlen G.q) :
+    ∃ r, fspowm I.tab I.G.g e I.G.p = .ok r ∧ Mem G r ∧ toF G r = toF G G.g ^ e := by
+  rw [hI.grp]
+  have hl : bitlen e ≤ tableSize (tableLen G) := by
+    unfold tableSize tableLen; have := hG.q_fits; omega
+  rw [fspowm_spec G.g G.p (tableLen G) (one_lt_p hG) I.tab hI.tab e hl]
+  have hval : toF G (G.g ^ e.natAbs % G.p) = toF G G.g ^ e := by
+    rw [toF_emod hG, toF_pow, pow_natAbs_of_nonneg _ he0]
+  have hne : toF G (G.g ^ e.natAbs % G.p) ≠ 0 := by rw [hval]; exact zpow_ne_zero _ (g_ne hG)
+  obtain ⟨r, hr, -, -, -⟩ := invm_val hG _ hne
+  simp only [hr, he0, if_true]
+  have hb := emod_bounds hG (G.g ^ e.natAbs)
+  exact ⟨_, rfl, mem_of_gpow hG hb.1 hb.2 hval, hval⟩
+
+/-- the exponents of `z_i = z_0 · g^i` -/
+def optExps (e0 : Int) : Nat → List Int
+  | 0 => []
+  | n + 1 => e0 :: optExps (e0 + 1) n
+
+omit [Fact (Nat.Prime G.p.natAbs)] in
+theorem optExps_length : ∀ (n : Nat) (e0 : Int), (optExps e0 n).length = n
+  | 0, _ => rfl
+  | n + 1, e0 => by simp [optExps, optExps_length n]
+
+omit [Fact (Nat.Prime G.p.natAbs)] in
+theorem optExps_getElem? : ∀ (n : Nat) (e0 : Int) (i : Nat),
+    (optExps e0 n)[i]? = if i < n then some (e0 + i) else none
+  | 0, _, _ => by simp [optExps]
+  | n + 1, e0, 0 => by simp [optExps]
+  | n + 1, e0, i + 1 => by
+    simp only [optExps, List.getElem?_cons_succ, optExps_getElem? n (e0 + 1) i,
+      Nat.add_lt_add_iff_right]
+    split
+    · congr 1; push_cast; ring
+    · rfl
+
+theorem optZs_val (hG : ValidGroup G) {I : Inst} (hI : InstOk G I) :
+    ∀ (n : Nat) (z e0 : Int), IsPow G z e0 → List.Forall₂ (IsPow G) (optZs I z n) (optExps e0 n) := by
+  intro n
+  induction n with
+  | zero => intro z e0 _; exact List.Forall₂.nil
+  | succ n ih =>
+    intro z e0 h
+    refine List.Forall₂.cons h (ih _ _ ?_)
+    rw [hI.grp]
+    obtain ⟨h0, h1, hv⟩ := mulmod_val hG z G.g
+    exact ⟨⟨h0, h1⟩, by rw [hv, h.2, zpow_add_one₀ (g_ne hG)]⟩
+
+/-- the chooser's first move: `x = g^a`, `y = g^b`, `z_0 = g^{ab - σ}` -/
+theorem chooseOpt_first (hG : ValidGroup G) {I : Inst} (hI : InstOk G I) {σ N : Nat} {a b : Int}
+    (hN : 2 ≤ N) (hσ : σ < N) (hσq : bitlen (σ : Int) ≤ bitlen G.q) (ha : InQ G a) (hb : InQ G b) :
+    ∃ x y z0, Mem G x ∧ Mem G y ∧ toF G x = toF G G.g ^ a ∧ toF G y = toF G G.g ^ b ∧
+      IsPow G z0 (a * b - σ) ∧
+      ∀ peer, chooseOpt I σ N a b peer = secondMove I σ N b [x, y, z0] 2 peer := by
+  obtain ⟨x, hx, mx, vx⟩ := gpow_val hG hI a ha
+  obtain ⟨y, hy, my, vy⟩ := gpow_val hG hI b hb
+  obtain ⟨gc, hgc, mgc, vgc⟩ := gpow_val hG hI _ (inQ_emod hG (a * b))
+  obtain ⟨gs, hgs, mgs, vgs⟩ := gpow_val_small hG hI (σ : Int) (Int.natCast_nonneg σ) hσq
+  obtain ⟨inv, hinv, -, -, vinv⟩ := invm_val hG gs (mgs.ne_zero hG)
+  obtain ⟨h0, h1, hv⟩ := mulmod_val hG gc inv
+  refine ⟨x, y, gc * inv % G.p, mx, my, vx, vy, ⟨⟨h0, h1⟩, ?_⟩, ?_⟩
+  · rw [hv, vgc, vinv, vgs, gpow_emod hG, zpow_sub₀ (g_ne hG), div_eq_mul_inv]
+  · intro peer
+    have hq : G.q ≠ 0 := ne_of_gt hG.q_pos
+    have hg := hI.grp
+    subst hg
+    simp [chooseOpt, step, mpzMod, hq, hx, hy, hgc, hgs, hinv]
+    intro h; exfalso; omega
+
+theorem sendOpt_ok (hG : ValidGroup G) {I : Inst} (hI : InstOk G I) {x y z0 : Int}
+    (hx : Mem G x) (hy : Mem G y) (hz0 : Mem G z0) (M : List Int) (sr : List (Int × Int))
+    (hN : 2 ≤ M.length) {l : List (Int × Int)}
+    (hl : encAll I x y (optZs I z0 M.length) M sr = (l, none)) (rest : List (Option Int)) :
+    sendOpt I M sr (some x :: some y :: some z0 :: rest) = ⟨flat l, .done none, 2 * l.length⟩ := by
+  unfold sendOpt
+  rw [if_neg (by omega)]
+  simp [(checkElement_eq hG hI x).mpr hx, (checkElement_eq hG hI y).mpr hy,
+    (checkElement_eq hG hI z0).mpr hz0, sendTail, hl]
+
+/-- A complete honest run of the optimised 1-out-of-N protocol, for ALL coins: the first move,
+    the reply `flat l`, and what every ciphertext opens to under the chooser's secret `b`
+    (the exponent of `z_i` is `ab - σ + i`). -/
+theorem otOpt_run (hG : ValidGroup G) {I : Inst} (hI : InstOk G I) (M : List Int) (hN : 2 ≤ M.length)
+    {σ : Nat} (hσ : σ < M.length) (hσq : bitlen (σ : Int) ≤ bitlen G.q)
+    {a b : Int} (ha : InQ G a) (hb : InQ G b)
+    {sr : List (Int × Int)} (hsl : sr.length = M.length) (hsr : ∀ p ∈ sr, InQ G p.2) :
+    ∃ first l,
+      (∀ peer, chooseOpt I σ M.length a b peer = secondMove I σ M.length b first 2 peer) ∧
+      sendOpt I M sr (first.map some) = ⟨flat l, .done none, 2 * M.length⟩ ∧
+      l.length = M.length ∧ (∀ p ∈ l, Mem G p.1) ∧
+      ∀ (i : Nat) (we : Int × Int), l[i]? = some we → ∃ Mi s r, i < M.length ∧
+        M[i]? = some Mi ∧ sr[i]? = some (s, r) ∧ Opens G I a b we (a * b - σ + i) Mi s := by
+  obtain ⟨x, y, z0, mx, my, vx, vy, hz0, hfirst⟩ := chooseOpt_first hG hI hN hσ hσq ha hb
+  have hrel := optZs_val hG hI M.length z0 _ hz0
+  have hzl : (optZs I z0 M.length).length = M.length := by rw [hrel.length_eq, optExps_length]
+  obtain ⟨l, hl, hlen, hmem, hopen⟩ :=
+    encAll_val hG hI a b mx my vx vy hrel M sr hzl.symm (hsl.trans hzl.symm) hsr
+  refine ⟨[x, y, z0], l, hfirst, ?_, hlen.trans hzl, hmem, ?_⟩
+  · rw [List.map_cons, List.map_cons, List.map_cons,
+      sendOpt_ok hG hI mx my (hz0.mem hG) M sr hN hl, hlen, hzl]
+  · intro i we hi
+    obtain ⟨c, Mi, s, r, hc, hMi, hs, hop⟩ := hopen i we hi
+    rw [optExps_getElem?] at hc
+    split at hc
+    · rename_i hlt
+      simp only [Option.some.injEq] at hc
+      subst hc
+      exact ⟨Mi, s, r, hlt, hMi, hs, hop⟩
+    · cases hc
+
+/-- **C18, optimised 1-out-of-N**: the chooser outputs `M_σ`, for all coins (the index must fit
+    the fixed-base table: `σ` has at most as many bits as `q`, in particular every `σ < q`). -/
+theorem ot1N_opt_correct (hG : ValidGroup G) {I : Inst} (hI : InstOk G I) (M : List Int)
+    (hM : ∀ m ∈ M, Mem G m) (hN : 2 ≤ M.length)
+    {σ : Nat} (hσ : σ < M.length) (hσq : bitlen (σ : Int) ≤ bitlen G.q)
+    {a b : Int} (ha : InQ G a) (hb : InQ G b)
+    {sr : List (Int × Int)} (hsl : sr.length = M.length) (hsr : ∀ p ∈ sr, InQ G p.1 ∧ InQ G p.2) :
+    ∃ first reply,
+      chooseOpt I σ M.length a b [] = ⟨first, .threw, 2⟩ ∧
+      sendOpt I M sr (first.map some) = ⟨reply, .done none, 2 * M.length⟩ ∧
+      chooseOpt I σ M.length a b (reply.map some) = ⟨first, .done M[σ]?, 2⟩ := by
+  obtain ⟨first, l, hfirst, hsend, hlen, hmem, hopen⟩ :=
+    otOpt_run hG hI M hN hσ hσq ha hb hsl (fun p hp => (hsr p hp).2)
+  refine ⟨first, flat l, ?_, hsend, ?_⟩
+  · rw [hfirst]; exact secondMove_nil I σ _ (by omega) b first _
+  · obtain ⟨we, hwe⟩ : ∃ we, l[σ]? = some we := ⟨l[σ]'(by omega), List.getElem?_eq_getElem _⟩
+    obtain ⟨Mi, s, r, -, hMi, -, m, hdec, hm, vm⟩ := hopen σ we hwe
+    have hMem : Mem G Mi := hM Mi (List.mem_of_getElem? hMi)
+    have hk : (a * b - σ + σ - a * b) * s = 0 := by ring
+    rw [hk] at vm
+    have : m = Mi := eq_of_exc hG hMem hm _ vm (by simp)
+    subst this
+    rw [hfirst, hMi, ← hlen]
+    exact secondMove_ok hG hI σ b first _ l hmem (w := we.1) (e := we.2) hwe hdec
+
+/-- **C18, optimised 1-out-of-N, the ciphertexts not chosen**: from ciphertext `i ≠ σ` the chooser
+    computes, with its own secrets, `M_i · g^{(i - σ)·s_i}`; this is `M_i` exactly for the coins
+    with `(i - σ)·s_i ≡ 0 (mod q)` — i.e. `s_i = 0`, or `i ≡ σ (mod q)` (possible only when
+    `N > q`: the sender does not compare the `z_i` in this variant, and `z_i = z_σ` then). -/
+theorem otOpt_unchosen (hG : ValidGroup G) {I : Inst} (hI : InstOk G I) (M : List Int)
+    (hM : ∀ m ∈ M, Mem G m) (hN : 2 ≤ M.length)
+    {σ : Nat} (hσ : σ < M.length) (hσq : bitlen (σ : Int) ≤ bitlen G.q)
+    {a b : Int} (ha : InQ G a) (hb : InQ G b)
+    {sr : List (Int × Int)} (hsl : sr.length = M.length) (hsr : ∀ p ∈ sr, InQ G p.1 ∧ InQ G p.2) :
+    ∃ first l,
+      chooseOpt I σ M.length a b [] = ⟨first, .threw, 2⟩ ∧
+      sendOpt I M sr (first.map some) = ⟨flat l, .done none, 2 * M.length⟩ ∧ l.length = M.length ∧
+      ∀ (i : Nat) (w e Mi s r : Int), i ≠ σ → l[i]? = some (w, e) → M[i]? = some Mi →
+        sr[i]? = some (s, r) →
+        ∃ m, decrypt I b w e = .ok (some m) ∧
+          toF G m = toF G Mi * toF G G.g ^ (((i : Int) - σ) * s) ∧
+          (m = Mi ↔ (((i : Int) - σ) * s) % G.q = 0) := by
+  obtain ⟨first, l, hfirst, hsend, hlen, hmem, hopen⟩ :=
+    otOpt_run hG hI M hN hσ hσq ha hb hsl (fun p hp => (hsr p hp).2)
+  refine ⟨first, l, ?_, hsend, hlen, ?_⟩
+  · rw [hfirst]; exact secondMove_nil I σ _ (by omega) b first _
+  · intro i w e Mi s r hi hl hMi hs
+    obtain ⟨Mi', s', r', -, hMi', hs', m, hdec, hm, vm⟩ := hopen i (w, e) hl
+    rw [hMi] at hMi'; rw [hs] at hs'
+    simp only [Option.some.injEq, Prod.mk.injEq] at hMi' hs'
+    obtain ⟨rfl, rfl⟩ := hs'
+    subst hMi'
+    have hk : (a * b - σ + i - a * b) * s = ((i : Int) - σ) * s := by ring
+    rw [hk] at vm
+    exact ⟨m, hdec, vm, eq_iff_exc hG (hM Mi (List.mem_of_getElem? hMi)) hm _ vm⟩
+
+/-- every index below `q` fits the table -/
+theorem bitlen_of_lt_q (hG : ValidGroup G) {σ : Nat} (h : (σ : Int) < G.q) :
+    bitlen (σ : Int) ≤ bitlen G.q := by
+  have h1 := bitlen_le_tableSize hG (σ : Int) (by have := hG.q_pos; omega)
+  have hq := hG.q_fits
+  unfold tableSize tableLen at h1
+  have hq0 : G.q.natAbs ≠ 0 := by have := hG.q_pos; omega
+  have hpos : 1 ≤ bitlen G.q := by
+    unfold bitlen; simp only [hq0, if_false]; omega
+  omega
+
+/-- the exceptional coin of the 1-out-of-2 protocol: `c = ab mod q` makes `z_0 = z_1`, and the
+    sender refuses the honest chooser's first move -/
+theorem ot12_collision (hG : ValidGroup G) {I : Inst} (hI : InstOk G I) (M0 M1 : Int) {σ : Nat}
+    (hσ : σ < 2) {a b : Int} (ha : InQ G a) (hb : InQ G b) (r0 s0 r1 s1 : Int) :
+    ∃ first,
+      choose12 I σ a b (a * b % G.q) [] = ⟨first, .threw, 3⟩ ∧
+      send12 I M0 M1 r0 s0 r1 s1 (first.map some) = ⟨[], .refused, 0⟩ := by
+  obtain ⟨x, y, z0, z1, mx, my, mz0, mz1, vx, vy, vz0, vz1, hfirst⟩ :=
+    choose12_first hG hI hσ ha hb (inQ_emod hG (a * b))
+  simp only [ite_self] at vz0 vz1
+  have hz : z0 = z1 := eq_of_toF_eq hG ⟨mz0.1.le, mz0.2.1⟩ ⟨mz1.1.le, mz1.2.1⟩ (vz0.trans vz1.symm)
+  refine ⟨[x, y, z0, z1], ?_, ?_⟩
+  · rw [hfirst]; exact secondMove_nil I σ 2 (by norm_num) b _ 3
+  · exact send12_aborts hG hI M0 M1 r0 s0 r1 s1 x y z0 z1 [] (Or.inr (Or.inr (Or.inr (Or.inr hz))))
+
+/-! ### the statements of C18 under their catalogue names -/
+
+omit [Fact (Nat.Prime G.p.natAbs)] in
+theorem sendTail_silent (I : Inst) (x y : Int) (zs M : List Int) (sr : List (Int × Int)) :
+    (sendTail I x y zs M sr).result = .done none ∨ (sendTail I x y zs M sr).written = [] := by
+  by_cases h : (sendTail I x y zs M sr).result = .done none
+  · exact Or.inl h
+  · exact Or.inr (sendTail_written I x y zs M sr h)
+
+omit [Fact (Nat.Prime G.p.natAbs)] in
+/-- the 1-out-of-N senders never write unless they return `true` (any input, any group) -/
+theorem send1N_silent (I : Inst) (M : List Int) (sr : List (Int × Int)) (peer : List (Option Int)) :
+    (send1N I M sr peer).result = .done none ∨ (send1N I M sr peer).written = [] := by
+  unfold send1N
+  split
+  · exact Or.inr rfl
+  · split
+    · split_ifs
+      · exact Or.inr rfl
+      · exact Or.inr rfl
+      · exact Or.inr rfl
+      · exact sendTail_silent I _ _ _ _ _
+    · exact Or.inr rfl
+
+omit [Fact (Nat.Prime G.p.natAbs)] in
+theorem sendOpt_silent (I : Inst) (M : List Int) (sr : List (Int × Int)) (peer : List (Option Int)) :
+    (sendOpt I M sr peer).result = .done none ∨ (sendOpt I M sr peer).written = [] := by
+  unfold sendOpt
+  split
+  · exact Or.inr rfl
+  · split
+    · split_ifs
+      · exact Or.inr rfl
+      · exact sendTail_silent I _ _ _ _ _
+    · exact Or.inr rfl
+
+/-- **C18, the sender aborts on queries that would open more than one message** (coinciding
+    `z`-values) **or that contain non-group elements**: the call returns `false`, NOTHING is written
+    and no coin is drawn — in all three variants. -/
+theorem sender_aborts_on_bad_query (hG : ValidGroup G) {I : Inst} (hI : InstOk G I) :
+    (∀ (M0 M1 r0 s0 r1 s1 x y z0 z1 : Int) (rest : List (Option Int)),
+      (¬ Mem G x ∨ ¬ Mem G y ∨ ¬ Mem G z0 ∨ ¬ Mem G z1 ∨ z0 = z1) →
+      send12 I M0 M1 r0 s0 r1 s1 (some x :: some y :: some z0 :: some z1 :: rest) =
+        ⟨[], .refused, 0⟩) ∧
+    (∀ (M : List Int) (sr : List (Int × Int)) (peer : List (Option Int)) (x y : Int) (zs : List Int),
+      2 ≤ M.length → readN (2 + M.length) peer = some (x :: y :: zs) →
+      (¬ Mem G x ∨ ¬ Mem G y ∨ (∃ z ∈ zs, ¬ Mem G z) ∨ ¬ zs.Nodup) →
+      send1N I M sr peer = ⟨[], .refused, 0⟩) ∧
+    (∀ (M : List Int) (sr : List (Int × Int)) (x y z0 : Int) (rest : List (Option Int)),
+      2 ≤ M.length → (¬ Mem G x ∨ ¬ Mem G y ∨ ¬ Mem G z0) →
+      sendOpt I M sr (some x :: some y :: some z0 :: rest) = ⟨[], .refused, 0⟩) :=
+  ⟨fun M0 M1 r0 s0 r1 s1 x y z0 z1 rest h => send12_aborts hG hI M0 M1 r0 s0 r1 s1 x y z0 z1 rest h,
+   fun M sr peer x y zs hN hread h => (send1N_aborts hG hI M sr peer x y zs hread h).2.2 hN,
+   fun M sr x y z0 rest hN h => sendOpt_aborts hG hI M sr x y z0 rest hN h⟩
+
+/-- **C18, the ciphertexts of the messages not chosen do not decrypt to those messages under the
+    chooser's own secrets**: the exact value the chooser can compute from ciphertext `i ≠ σ` is
+    `M_i · g^{(c_i - ab)·s_i}` (`c_i - ab = i - σ` in the optimised variant), which equals `M_i`
+    only on the explicit exceptional set of coins `(c_i - ab)·s_i ≡ 0 (mod q)`.
+    (The three conjuncts are `ot12_unchosen`, `ot1N_unchosen`, `otOpt_unchosen`.) -/
+theorem unchosen_not_decrypted (hG : ValidGroup G) {I : Inst} (hI : InstOk G I) :
+    (∀ {M0 M1 : Int}, Mem G M0 → Mem G M1 → ∀ {σ : Nat}, σ < 2 →
+      ∀ {a b c r0 s0 r1 s1 : Int}, InQ G a → InQ G b → InQ G c → InQ G r0 → InQ G s0 → InQ G r1 →
+      InQ G s1 → c ≠ a * b % G.q →
+      ∃ first w0 e0 w1 e1 m,
+        choose12 I σ a b c [] = ⟨first, .threw, 3⟩ ∧
+        send12 I M0 M1 r0 s0 r1 s1 (first.map some) = ⟨[w0, e0, w1, e1], .done none, 4⟩ ∧
+        decrypt I b (if σ = 0 then w1 else w0) (if σ = 0 then e1 else e0) = .ok (some m) ∧
+        toF G m = toF G (if σ = 0 then M1 else M0) *
+          toF G G.g ^ ((c - a * b) * (if σ = 0 then s1 else s0)) ∧
+        (m = (if σ = 0 then M1 else M0) ↔
+          ((c - a * b) * (if σ = 0 then s1 else s0)) % G.q = 0)) ∧
+    (∀ (M : List Int), (∀ m ∈ M, Mem G m) → 2 ≤ M.length → ∀ {σ : Nat}, σ < M.length →
+      ∀ {a b : Int}, InQ G a → InQ G b → ∀ {cs : List Int}, cs.length = M.length →
+      (∀ c ∈ cs, InQ G c) → ∀ {sr : List (Int × Int)}, sr.length = M.length →
+      (∀ p ∈ sr, InQ G p.1 ∧ InQ G p.2) → (expo σ (a * b % G.q) 0 cs).Nodup →
+      ∃ first l,
+        choose1N I σ a b cs [] = ⟨first, .threw, 2 + M.length⟩ ∧
+        send1N I M sr (first.map some) = ⟨flat l, .done none, 2 * M.length⟩ ∧ l.length = M.length ∧
+        ∀ i w e ci Mi s r, i ≠ σ → l[i]? = some (w, e) → cs[i]? = some ci → M[i]? = some Mi →
+          sr[i]? = some (s, r) →
+          ∃ m, decrypt I b w e = .ok (some m) ∧
+            toF G m = toF G Mi * toF G G.g ^ ((ci - a * b) * s) ∧
+            (m = Mi ↔ ((ci - a * b) * s) % G.q = 0)) ∧
+    (∀ (M : List Int), (∀ m ∈ M, Mem G m) → 2 ≤ M.length → ∀ {σ : Nat}, σ < M.length →
+      bitlen (σ : Int) ≤ bitlen G.q → ∀ {a b : Int}, InQ G a → InQ G b →
+      ∀ {sr : List (Int × Int)}, sr.length = M.length → (∀ p ∈ sr, InQ G p.1 ∧ InQ G p.2) →
+      ∃ first l,
+        chooseOpt I σ M.length a b [] = ⟨first, .threw, 2⟩ ∧
+        sendOpt I M sr (first.map some) = ⟨flat l, .done none, 2 * M.length⟩ ∧ l.length = M.length ∧
+        ∀ (i : Nat) (w e Mi s r : Int), i ≠ σ → l[i]? = some (w, e) → M[i]? = some Mi →
+          sr[i]? = some (s, r) →
+          ∃ m, decrypt I b w e = .ok (some m) ∧
+            toF G m = toF G Mi * toF G G.g ^ (((i : Int) - σ) * s) ∧
+            (m = Mi ↔ (((i : Int) - σ) * s) % G.q = 0)) :=
+  ⟨fun hM0 hM1 _ hσ _ _ _ _ _ _ _ ha hb hc hr0 hs0 hr1 hs1 hne =>
+      ot12_unchosen hG hI hM0 hM1 hσ ha hb hc hr0 hs0 hr1 hs1 hne,
+   fun M hM hN _ hσ _ _ ha hb _ hcl hcs _ hsl hsr hnd =>
+      ot1N_unchosen hG hI M hM hN hσ ha hb hcl hcs hsl hsr hnd,
+   fun M hM hN _ hσ hσq _ _ ha hb _ hsl hsr =>
+      otOpt_unchosen hG hI M hM hN hσ hσq ha hb hsl hsr⟩
+
+/-! ### non-vacuity: the group `p = 23`, `q = 11`, `g = 2` -/
+
+theorem valid23 : ValidGroup ⟨23, 11, 2⟩ :=
+  ⟨by decide, by decide, by norm_num, by norm_num, by decide, by decide, by decide, by decide⟩
+
 end
+
+theorem mem23 (m : Int) (h : 0 < m ∧ m < 23 ∧ m ^ 11 % 23 = 1) :
+    haveI := fact_prime valid23
+    Mem ⟨23, 11, 2⟩ m := by
+  have := fact_prime valid23
+  refine ⟨h.1, h.2.1, ?_⟩
+  rw [← toF_pow, ← toF_one (G := ⟨23, 11, 2⟩), toF_eq_iff valid23]
+  exact h.2.2
+
+/-- the hypotheses of `ot1N_correct` are satisfiable: `N = 3`, `σ = 1`, messages `2, 4, 8` -/
+example : ∃ I first reply, mkInst ⟨23, 11, 2⟩ = .ok I ∧
+    choose1N I 1 3 4 [5, 0, 7] [] = ⟨first, .threw, 5⟩ ∧
+    send1N I [2, 4, 8] [(1, 2), (3, 4), (5, 6)] (first.map some) = ⟨reply, .done none, 6⟩ ∧
+    choose1N I 1 3 4 [5, 0, 7] (reply.map some) = ⟨first, .done (some 4), 5⟩ := by
+  have := fact_prime valid23
+  obtain ⟨I, hI, hok⟩ := mkInst_ok valid23
+  have hM : ∀ m ∈ [(2 : Int), 4, 8], Mem ⟨23, 11, 2⟩ m := by
+    intro m hm
+    simp only [List.mem_cons, List.not_mem_nil, or_false] at hm
+    rcases hm with rfl | rfl | rfl <;> exact mem23 _ (by decide)
+  obtain ⟨first, reply, h1, h2, h3⟩ :=
+    ot1N_correct valid23 hok [2, 4, 8] hM (by decide) (σ := 1) (by decide) (a := 3) (b := 4)
+      ⟨by decide, by decide⟩ ⟨by decide, by decide⟩ (cs := [5, 0, 7]) rfl
+      (by intro c hc; simp only [List.mem_cons, List.not_mem_nil, or_false] at hc
+          rcases hc with rfl | rfl | rfl <;> exact ⟨by decide, by decide⟩)
+      (sr := [(1, 2), (3, 4), (5, 6)]) rfl
+      (by intro c hc; simp only [List.mem_cons, List.not_mem_nil, or_false] at hc
+          rcases hc with rfl | rfl | rfl <;> exact ⟨⟨by decide, by decide⟩, ⟨by decide, by decide⟩⟩)
+      (by decide)
+  exact ⟨I, first, reply, hI, h1, h2, h3⟩
+
+/-- the three protocols evaluated on that group (kernel computation on the executable model):
+    1-out-of-2 with `σ = 1`, 1-out-of-N and optimised 1-out-of-N with `N = 3`, `σ = 1` -/
+example :
+    (match mkInst ⟨23, 11, 2⟩ with
+     | .ok I =>
+       let c1 := choose12 I 1 3 4 5 []
+       let s := send12 I 2 4 1 2 3 4 (c1.written.map some)
+       let c2 := choose12 I 1 3 4 5 (s.written.map some)
+       let d1 := choose1N I 1 3 4 [5, 0, 7] []
+       let t := send1N I [2, 4, 8] [(1, 2), (3, 4), (5, 6)] (d1.written.map some)
+       let d2 := choose1N I 1 3 4 [5, 0, 7] (t.written.map some)
+       let o1 := chooseOpt I 1 3 3 4 []
+       let u := sendOpt I [2, 4, 8] [(1, 2), (3, 4), (5, 6)] (o1.written.map some)
+       let o2 := chooseOpt I 1 3 3 4 (u.written.map some)
+       [c1.result, s.result, c2.result, d1.result, t.result, d2.result, o1.result, u.result, o2.result]
+     | .error _ => []) =
+    [.threw, .done none, .done (some 4), .threw, .done none, .done (some 4),
+      .threw, .done none, .done (some 4)] := by
+  decide +kernel
+
+/-- … and an exceptional coin: `c = ab mod q` in the 1-out-of-2 protocol — the sender refuses the
+    honest chooser's first move -/
+example :
+    (match mkInst ⟨23, 11, 2⟩ with
+     | .ok I => (send12 I 2 4 1 2 3 4 ((choose12 I 1 3 4 1 []).written.map some)).result
+     | .error _ => .threw) = .refused := by
+  decide +kernel
+
 end Tmcg.OtProofs
